@@ -165,8 +165,8 @@ def export_to_csv(
 
         rows.append(row)
 
-    df = pd.DataFrame(rows)
-    df = df[header]
+    # passing the columns keeps the header when no node is exported
+    df = pd.DataFrame(rows, columns=header)
 
     # Also add a column with the track ID color
     if color_dict is not None:
